@@ -5,6 +5,7 @@ from __future__ import annotations
 
 import json
 import os
+import re
 from concurrent.futures import ThreadPoolExecutor
 from fractions import Fraction
 from multiprocessing import Pool
@@ -89,8 +90,9 @@ def build_input_of(sdoc):
   return ad, cat
 
 
-def observe_styles(doc, t, D):
-  """[{R, k, st: [{p, v}]}] for every region and every element with an id e<k> of ISD.from_model(doc, t)."""
+def observe_styles(doc, t, D, focus=()):
+  """[{R, k, st: [{p, v}]}] for every region and every element with an id e<k> of ISD.from_model(doc, t);
+  with a non-empty focus only those properties are recorded (only those are judged)."""
   import ttconv.model as m
   from ttconv.isd import ISD
   isd = ISD.from_model(doc, Fraction(t, D))
@@ -100,7 +102,7 @@ def observe_styles(doc, t, D):
     R = int(rid[1:]) if rid and rid[0] == "r" and rid[1:].isdigit() else 0
 
     def one(e, k):
-      st = [{"p": p.__name__, "v": observed(p.__name__, e.get_style(p))} for p in e.iter_styles()]
+      st = [{"p": p.__name__, "v": observed(p.__name__, e.get_style(p))} for p in e.iter_styles() if not focus or p.__name__ in focus]
       st.sort(key=lambda x: x["p"])
       out.append({"R": R, "k": k, "st": st})
 
@@ -126,13 +128,13 @@ def _job(job):
       ad = job["ad"]
       sdoc = sdoc_of(ad, cat)
     else:
-      sdoc = job["sdoc"]
+      sdoc = json.loads(job["sdoc"]) if isinstance(job["sdoc"], str) else job["sdoc"]
       ad, cat = build_input_of(sdoc)
       ad["D"] = job.get("D", 2)
     D = ad.get("D", 2)
     doc, _e, _r = build_doc(ad, D, cat)
     times = job["times"]
-    obs = [observe_styles(doc, t, D) for t in times]
+    obs = [observe_styles(doc, t, D, job.get("focus") or ()) for t in times]
     return {"id": rid, "doc": {k: sdoc[k] for k in SDOC_FIELDS}, "times": times, "obs": obs, "focus": job.get("focus", [])}
   except Exception as ex:  # pylint: disable=broad-except
     import traceback
@@ -185,19 +187,46 @@ def design(ctx, tier, names=None, workers=3, groups=4):
     if not res.completed:
       raise T.MachineryError(f"StyleSweep run {label} did not complete\n" + res.out[-1500:])
     ctx.tlc(res, f"StyleSweep design model, families: {label}")
-    states = T.parse_dump_fast(os.path.join(res.workdir, "states.dump"), {"fi", "case", "ti"})
     cases = [dict() for _ in b]
     nstates = [0] * len(b)
-    for s in states:
-      nstates[s["fi"] - 1] += 1
-      if s["ti"] == 1:
-        cases[s["fi"] - 1][json.dumps(s["case"], sort_keys=True)] = s["case"]
+    for fi, ti, case_json in _stream_dump(os.path.join(res.workdir, "states.dump")):
+      nstates[fi - 1] += 1
+      if ti == 1:
+        cases[fi - 1][case_json] = None
+    os.remove(os.path.join(res.workdir, "states.dump"))
     for i, (name, fam) in enumerate(b):
       if nstates[i] != len(cases[i]) * len(fam["times"]) or not cases[i]:
         raise T.MachineryError(f"family {name}: {nstates[i]} dumped states for {len(cases[i])} cases x {len(fam['times'])} ticks")
-      out[name] = (list(cases[i].values()), fam["times"], fam["focus"])
+      out[name] = (list(cases[i]), fam["times"], fam["focus"])
       ctx.count("design_states_" + name, nstates[i])
   return {k: out[k] for k in fams}
+
+
+_RE_VAR = re.compile(r"^/\\ (\w+) = ", flags=re.M)
+
+
+def _stream_dump(path):
+  """Yield (fi, ti, case as canonical JSON text) for every state of a TLC -dump file, without holding the file in memory.
+  Cases stay JSON text (they are decoded where they are used): the thorough tier has several 100 000 states."""
+  def emit(block):
+    parts = _RE_VAR.split(block)
+    d = {parts[k]: parts[k + 1].strip() for k in range(1, len(parts) - 1, 2)}
+    j = T.tla_to_json_text(d["case"])
+    if j is None:
+      raise T.MachineryError("unexpected value syntax in state dump: " + d["case"][:200])
+    return int(d["fi"]), int(d["ti"]), json.dumps(json.loads(j), sort_keys=True, separators=(",", ":"))
+
+  buf = []
+  with open(path) as fh:
+    for line in fh:
+      if line.startswith("State ") and line.rstrip().endswith(":"):
+        if buf:
+          yield emit("".join(buf))
+          buf = []
+      elif line.strip():
+        buf.append(line if line.startswith("/\\") or buf else "/\\ " + line)
+  if buf:
+    yield emit("".join(buf))
 
 
 # ----------------------------------------------------------------------------------------------------------
